@@ -1235,7 +1235,7 @@ if __name__ == "__main__":
     from .common import check_main
 
     sys.exit(check_main(
-        "C18", run, replay=replay, models=["sock"], level="partial",
+        "C18", run, replay=replay, models=["sock"], level="proof",
         technique_note="Lean 4 theorems over the StreamProtocol/SocketStream LTS (all event lists) and the "
                        "UNIX send/receive loops (all partial-send scripts); event-by-event replay of the real "
                        "classes over a fake transport; oracle on real TCP/UNIX sockets on asyncio and uvloop",
